@@ -312,7 +312,7 @@ Proof.
   destruct (Nat.eqb_spec q 0) as [Q|Q].
   - rewrite rows_all. rewrite <- L, rows_all. reflexivity.
   - destruct (fill_repaired X r fvals Q) as [buf [off [F1 [F2 F3]]]]. fold fs q in F1, F2, F3.
-    rewrite F1. cbn [bind fst snd index_cells]. rewrite F3, read_buffer_written.
+    unfold index_buffer. fold fs q. rewrite F1. cbn [bind fst snd index_cells]. rewrite F3, read_buffer_written.
     rewrite gather_ok by (intros i Hi; eapply sel_bound; exact Hi). cbn [bind].
     rewrite gather_ok by (intros i Hi; rewrite L; eapply sel_bound; exact Hi). reflexivity.
 Qed.
@@ -332,21 +332,22 @@ Proof. intros L. rewrite !subsample_spec by exact L. reflexivity. Qed.
 
 Definition written_in_range (n : nat) (c : cell) : Prop := exists i, c = Written i /\ i < n.
 
-Lemma used_cells_written X r :
-  exists cells, used_cells X r = Ok cells /\ Forall (written_in_range (length X)) cells /\
+(* the cells subsample_gen reads (index_buffer is the sub-term of its definition that builds them) *)
+Lemma index_buffer_written X r : quota X r <> 0 ->
+  exists cells, index_buffer Repaired X r (f_values X) = Ok cells /\
+                Forall (written_in_range (length X)) cells /\
                 length cells <= final_space_size r (length X) /\
-                read_buffer no_garbage cells = map Z.of_nat (if quota X r =? 0 then [] else sampled_indices X r).
+                forall g, read_buffer g cells = map Z.of_nat (sampled_indices X r).
 Proof.
-  unfold used_cells, sampled_indices. unfold quota, quota_of.
-  set (fs := final_space_size r (length X)). set (q := fs / length (f_values X)).
-  destruct (Nat.eqb_spec q 0) as [Q|Q].
-  - exists []. repeat split; [constructor | cbn; lia].
-  - destruct (fill_repaired X r (f_values X) Q) as [buf [off [F1 [F2 F3]]]]. fold fs q in F1, F2, F3.
-    rewrite F1. cbn [bind fst snd]. exists (firstn off buf). split; [reflexivity|]. split; [|split].
-    + rewrite F3. apply Forall_forall. intros c Hc. apply in_map_iff in Hc. destruct Hc as [i [E Hi]].
-      exists i. split; [symmetry; exact E|]. eapply sel_bound. exact Hi.
-    + rewrite firstn_length. lia.
-    + rewrite F3. apply read_buffer_written.
+  unfold index_buffer, sampled_indices. unfold quota, quota_of.
+  set (fs := final_space_size r (length X)). set (q := fs / length (f_values X)). intros Q.
+  destruct (Nat.eqb_spec q 0) as [Q0|_]; [contradiction|].
+  destruct (fill_repaired X r (f_values X) Q) as [buf [off [F1 [F2 F3]]]]. fold fs q in F1, F2, F3.
+  rewrite F1. cbn [bind fst snd index_cells]. exists (firstn off buf). split; [reflexivity|]. split; [|split].
+  - rewrite F3. apply Forall_forall. intros c Hc. apply in_map_iff in Hc. destruct Hc as [i [E Hi]].
+    exists i. split; [symmetry; exact E|]. eapply sel_bound. exact Hi.
+  - rewrite firstn_length. lia.
+  - intros g. rewrite F3. apply read_buffer_written.
 Qed.
 
 Lemma sampled_indices_bound X r i : In i (sampled_indices X r) -> i < length X.
@@ -556,3 +557,18 @@ Qed.
 Lemma prefix_unsafe : exists (g : nat -> Z) Y X r c,
   length Y = length X /\ entry_old g Y X r c = Error IndexOutOfRange.
 Proof. exists (fun _ => 10%Z), wY, wX, w07, false. split; [reflexivity | exact old_can_fail]. Qed.
+
+(* the side condition of entry_outside_irrelevant is necessary: Y = X with the flag on; changing ONE cell of Y in a
+   row that is not sampled (row 3; the sample is rows 0,1,7,8,9) switches the self-pair test off and the correction
+   on, and the term structure changes *)
+Definition wY' : list Z := [0; 0; 0; 1; 0; 0; 0; 1; 2; 2]%Z.
+Lemma outside_selfpair_refuted : exists (g : nat -> Z) Y Y' X r c,
+  length Y = length X /\ length Y' = length X /\
+  (forall i, In i (entry_indices X r) -> nth i Y 0%Z = nth i Y' 0%Z) /\
+  Y <> Y' /\ entry g Y X r c <> entry g Y' X r c.
+Proof.
+  exists no_garbage, wX, wY', wX, w07, true. split; [reflexivity|]. split; [reflexivity|]. split; [|split].
+  - apply agree_on_sound. vm_compute. reflexivity.
+  - discriminate.
+  - vm_compute. discriminate.
+Qed.
